@@ -416,7 +416,6 @@ unsafe fn dispose_general_node<T: RcObject>(
     vpoint!(State, rc as *const RcInner<T>);
     let state = State::from_raw(rc.state.load(Ordering::SeqCst));
     let node_epoch = state.epoch();
-    debug_assert_eq!(state.strong(), 0);
 
     vpoint!(EpochRead, 0usize);
     let curr_epoch = global_epoch();
@@ -426,6 +425,29 @@ unsafe fn dispose_general_node<T: RcObject>(
     // Note that checking whether it is a root is necessary, because if `node_epoch` is
     // old enough, `modu.le` may return false.
     if depth == 0 || modu.le(node_epoch as _, curr_epoch as isize - 3) {
+        if depth > 0 {
+            // Unlike a root, which `try_destruct` has marked, a child reached by the cascade is
+            // not marked as destructed yet. Mark it now, atomically with observing that its
+            // count is still zero: a weak pointer may have been upgraded since the decrement.
+            let mut old = state;
+            loop {
+                if old.strong() > 0 {
+                    // Someone incremented from zero and left the permission for this attempt
+                    // to run decrement again, exactly as for `try_destruct`.
+                    RcInner::decrement_strong(rc, 1, Some(guard));
+                    return;
+                }
+                match rc.state.compare_exchange(
+                    old.as_raw(),
+                    old.with_destructed(true).as_raw(),
+                    Ordering::SeqCst,
+                    Ordering::SeqCst,
+                ) {
+                    Ok(_) => break,
+                    Err(curr) => old = State::from_raw(curr),
+                }
+            }
+        }
         // The current node is immediately reclaimable.
         vevent!(DestructBegin {
             obj: rc as *const RcInner<T> as usize,
